@@ -26,6 +26,9 @@ func drawAllocator(prog *simrt.Stream, b Bounds) signal.Allocator {
 		l := []int{0, 1, k}[prog.Draw(3)]
 		return signal.Allocator{Channels: c, Length: l, Capacity: k}
 	}
+	if prog.Draw(b.MediumOneIn) == b.MediumOneIn-1 {
+		return mediumAllocator(prog)
+	}
 	var c int
 	switch prog.Draw(4) {
 	case 0:
@@ -90,6 +93,45 @@ func drawClock(sim *simrt.Sim) {
 		sim.ClockJumpNum = 32
 		sim.ClockJumpMax = []time.Duration{time.Second, time.Minute, 24 * time.Hour}[sim.Sched.Draw(3)]
 	}
+}
+
+// mediumTotal draws a number of samples between the ordinary shapes (at most
+// 2*MaxK) and the huge ones: size thresholds of a modified library (chunking,
+// unrolling, a parallel or word-wise path from so many samples on) lie there.
+// Powers of two, their neighbours and arbitrary sizes are equally likely.
+func mediumTotal(prog *simrt.Stream) int {
+	total := 1 << (7 + prog.Draw(10)) // 128 .. 64 Ki
+	switch prog.Draw(5) {
+	case 0:
+	case 1:
+		total--
+	case 2:
+		total++
+	case 3:
+		total += 1 + prog.Draw(16)
+	default:
+		total = total/2 + 1 + prog.Draw(total/2)
+	}
+	return total
+}
+
+// mediumAllocator is a rare shape class between the ordinary and the huge ones.
+func mediumAllocator(prog *simrt.Stream) signal.Allocator {
+	total := mediumTotal(prog)
+	c := []int{1, 2, 1 + prog.Draw(8)}[prog.Draw(3)]
+	k := total / c
+	if prog.Draw(2) == 1 {
+		k = (total + c - 1) / c
+	}
+	l := []int{0, k, k - 1, prog.Draw(k + 1)}[prog.Draw(4)]
+	return signal.Allocator{Channels: c, Length: l, Capacity: k}
+}
+
+// isMedium says whether an allocator is larger than every ordinary shape of
+// either tier and not huge.
+func isMedium(a signal.Allocator) bool {
+	n := a.Channels * a.Capacity
+	return n > 8192 && n < 65536
 }
 
 // isHuge says whether an allocator is one of the rare huge shapes (the
